@@ -22,6 +22,15 @@ def gen_cases(seed, tier):
         cases.append(dict(id="h%d" % len(cases), comp="zstd:1", dedup=1,
                           ops=[("y", "mem", A), ("n", "mem", B), ("n", "mem", A), ("y", "mem", BIG), ("y", "mem", A),
                                ("y", "mem", B), ("n", "mem", BIG), ("y", "file", BIG), ("d", "mem", B)]))
+    # slow compression workers with the smallest worker counts: the queue of clusters in flight reaches its limit (2w)
+    # while further "compress" clusters are closed; each of them must still be stored compressed
+    for w in ([1] if tier == "quick" else [1, 2, 3]):
+        ops = []
+        for j in range(2 * w + 5):
+            ops.append(("y", "mem", "g:2200000:%d:t" % rng.randint(1, 999)))      # each closes its own compressed cluster
+            if j % 2:
+                ops.append(("n", "mem", "g:%d:%d:r" % (rng.randint(0, 2000), rng.randint(1, 999))))
+        cases.append(dict(id="h%d" % len(cases), comp="zstd:1", dedup=0, delays=0, workers=w, slow=60, ops=ops))
     n = 50 if tier == "quick" else 500
     for i in range(n):
         comp = comps[i % 4] if i % 5 else rng.choice(levels)
